@@ -145,6 +145,22 @@ func (win Window) Origin() (int, int) {
 	}
 }
 
+// contains reports whether a block of cols x rows cells placed at the origin
+// of the Window lies entirely within the Window, all of its ancestors and the
+// screen
+func (win Window) contains(cols int, rows int) bool {
+	col, row := 0, 0
+	for w := &win; w != nil; w = w.Parent {
+		if col < 0 || row < 0 || col+cols > w.Width || row+rows > w.Height {
+			return false
+		}
+		col += w.Column
+		row += w.Row
+	}
+	width, height := win.Vx.screenNext.size()
+	return col >= 0 && row >= 0 && col+cols <= width && row+rows <= height
+}
+
 // Clear fills the Window with spaces with the default colors and removes all
 // graphics placements
 func (win Window) Clear() {
